@@ -75,6 +75,9 @@ def handle (L : Layout) (toks : List String) : Option String :=
       let verdict := if bad.isEmpty then "ok" else "viol:" ++ String.intercalate "," bad
       some s!"{verdict} {showObls L (nextObls o obls)}"
     | _, _, _, _, _, _, _, _ => none
+  | ["H12"] =>
+    -- is the current layout inside the scope of `C08_partial` (H1 ∧ H2)?  also: without absorbing mappings?
+    some s!"{if layoutH1 L && layoutH2 L then "in" else "out"} {if noAbsLayout L then "noabs" else "abs"}"
   | ["AK", k] =>
     match k.toNat? with
     | some k => some (if isActionKey k then "1" else "0")
